@@ -70,6 +70,9 @@ def run_history(rec, cfg, script, sid=1, variant=0):
         elif act == "set-keys":
             sess.set_keys(cfg)
             req = None
+        elif act == "set-salt":
+            sess.position_salt(a["v"])
+            req = None
         elif act == "set-keys-bad":
             # a botched key rotation: unusable key material (empty password / localized key of the wrong size) in the privacy or the auth key
             klen = 16 if cfg.auth == "md5" else 20
